@@ -453,11 +453,18 @@ TExpect ==
 \* events that carry no obligation for the monitors of this module
 Skippable == {"Deal", "CacheAdd", "Flush", "HubSlow", "HubDelete", "Subscribed", "CacheRead", "WatchClosing",
               "RetryDeal", "Get", "IterOpen", "IterItem", "Die", "Note"}
+\* a request made the code under test panic (the driver recovered the goroutine): no property allows that
+TPanic ==
+    /\ Is("Panic") /\ Adv
+    /\ viol' = viol \cup V(FALSE, "NoPanic")
+    /\ pend' = {x \in pend : x.p # E.p}
+    /\ UNCHANGED <<idx, ver, hv, floor, cm, base, maxRet, seen, maxRev, evlog, ws, rds, prefixes, cmax, expiring, chg, ttl>>
+
 TSkip ==
     /\ l <= Len(Trace) /\ E.e \in Skippable /\ Adv
     /\ UNCHANGED <<idx, ver, hv, floor, cm, base, pend, maxRet, seen, maxRev, evlog, ws, rds, prefixes, cmax, expiring, chg, ttl, viol>>
 
-TNext == TReset \/ TInitEv \/ TInvoke \/ TCommit \/ TNotify \/ TCommitted \/ TReturn
+TNext == TReset \/ TPanic \/ TInitEv \/ TInvoke \/ TCommit \/ TNotify \/ TCommitted \/ TReturn
          \/ TWatchInvoke \/ TWatchReturn \/ TRecv \/ TClosed \/ TQuiesce \/ TSkip
          \/ TRInvoke \/ TRReturn \/ TCInvoke \/ TCReturn \/ TDel \/ TExpect
 
@@ -485,6 +492,7 @@ M_NotBeforeTTL          == NoViol("NotBeforeTTL")
 M_ExpireWholly          == NoViol("ExpireWholly")
 M_ExpiryExpectation     == NoViol("ExpiryExpectation")
 M_UniqueRevision        == NoViol("UniqueRevision")
+M_NoPanic               == NoViol("NoPanic")
 M_RealTimeOrder         == NoViol("RealTimeOrder")
 M_HeaderCoversData      == NoViol("HeaderCoversData")
 M_NoOvertake            == NoViol("NoOvertake")
